@@ -133,6 +133,9 @@ def row(deco, arg):
             "snap_list": len(getattr(target, "__postcondition_snapshots__", [])), "cond_calls": calls["cond"]}
 
 
+LIMIT_FOR_MESSAGES = 10
+
+
 def broken_before_call():
     """explicitly enabled invariants; the object is broken without going through a checked operation; the next public
     operation must be stopped BEFORE its body in every interpreter mode"""
@@ -274,6 +277,26 @@ def broken_before_call():
 
         try:
             h(-1)
+            texts.append("returned")
+        except icontract.ViolationError as e:
+            texts.append(str(e).replace(__file__, "<file>"))
+    except BaseException as e:  # noqa: B902
+        texts.append(type(e).__name__)
+    # a lambda condition with sub-expressions worth reporting (a call, an attribute, a subscript, a global)
+    try:
+        class Box:
+            def __init__(self):
+                self.size = 2
+
+            def __repr__(self):
+                return "Box()"
+
+        @icontract.require(lambda xs, box: len(xs) > box.size + xs[0] + LIMIT_FOR_MESSAGES, enabled=True)
+        def k(xs, box):
+            return xs
+
+        try:
+            k([1, 2], Box())
             texts.append("returned")
         except icontract.ViolationError as e:
             texts.append(str(e).replace(__file__, "<file>"))
